@@ -279,7 +279,8 @@ def _levels(tier):
     # rebinding) are explored at depth 1 only, so the findings stay explicit lists
     multi = [c for c in ['import_mod', 'from_import', 'from_import_as', 'import_as',
                          'pkg_relative', 'pkg_init_reexport', 'star_import', 'kwarg_xmod',
-                         'method_xmod', 'inherit_xmod'] if c not in DEPTH1_ONLY]
+                         'method_xmod', 'inherit_xmod', 'pkg_prefix_sibling', 'pkg_self_import',
+                         'conditional_reimport'] if c not in DEPTH1_ONLY]
     core = [c for c in pf.CARRIER_NAMES if c in pf.CORE and c not in DEPTH1_ONLY]
     lv = []
     if tier == 'quick':
